@@ -620,7 +620,7 @@ def main(ctx):
     # ---- model <-> implementation inside Coq
     hist['shape_cases'] = len(coq_cases)
     t0 = time.time()
-    bad, err = common.coq_failing_indices('cases_c17', ['Base.Prelude', 'Model.Heap'], 'check_case', coq_cases, shard=120)
+    bad, err = common.coq_failing_indices('cases_c17', ['Base.Prelude', 'Model.Heap'], 'check_case', coq_cases, shard=ctx.pick(120, 60))
     tm['coq_cases'] = round(time.time() - t0, 1)
     if err:
         ctx.fail('correspondence', 'model evaluation failed: ' + err[-600:], None)
